@@ -328,6 +328,11 @@ func checkArgType(
 			return nil
 		}
 
+		// a union argument fits when each of its variants is accepted
+		if definedArgT.IsSupersetUnionOf(argT) {
+			return nil
+		}
+
 		var argType string
 
 		switch argT.GetType() {
